@@ -83,3 +83,13 @@ def _run_one(lines):
     if len(ol) != len(lines):
         raise DriverError("driver returned %d lines for %d ops" % (len(ol), len(lines)))
     return ol
+
+
+def t3(v, prefix="t:", sep=","):
+    """encoding of a 3-sequence of ints; anything else gets an encoding that matches nothing the model prints"""
+    try:
+        if len(v) == 3 and all(type(x) is int for x in v):
+            return prefix + sep.join(str(x) for x in v)
+    except TypeError:
+        pass
+    return "x:" + repr(v)
